@@ -1,5 +1,6 @@
 """C12 - pitch, key, duration and time-unit conversions are mutually consistent."""
 import itertools
+import copy
 import math
 from fractions import Fraction
 
@@ -90,6 +91,14 @@ def cases(rng, tier):
         for n in range(0, 16):
             for dr in ("up", "down", "sideways"):
                 yield {"k": "iv", "q": qual, "n": n, "dir": dr}
+    # 9b. histories of ONE Interval object: (read its size,) change its quality by k semitones, read its size: the size
+    #     reported afterwards is the defined size of the NEW class (and of a freshly built interval of that class)
+    for qual in ["dd", "d", "m", "M", "P", "A", "AA"]:
+        for n in range(1, 8):
+            for k in range(-6, 7):
+                for read_first in (False, True):
+                    yield {"k": "ivq", "q": qual, "n": n, "step": k, "read_first": read_first,
+                           "dir": "up" if (n + k) % 2 else "down"}
     for (a, n) in [(3, 2), (5, 4), (6, 4), (7, 8), (2, 3), (9, 8)]:
         for at, nt in [("eighth", "eighth"), ("eighth", "quarter"), ("16th", "eighth"), ("quarter", "16th")]:
             yield {"k": "tup", "actual": a, "normal": n, "at": at, "nt": nt}
@@ -119,6 +128,15 @@ def cases(rng, tier):
             t = (k + 0.5) * 2 ** a / (2.0 * ppq)
         yield {"k": "s2t", "t": t, "mpq": mpq, "ppq": ppq, "arr": rng.random() < 0.3}
         yield {"k": "t2s", "tick": rng.randint(0, 10**7), "mpq": mpq, "ppq": ppq, "arr": rng.random() < 0.3}
+    # 10b. "for scalars and arrays alike": the same values in every container / dtype a caller may hold them in give the
+    #      same result, the caller's array is left as it was, the result is a new array, and a second call agrees
+    for _ in range(120 if tier == "quick" else 3000):
+        ppq = rng.choice([1, 24, 96, 120, 480, 960, rng.randint(1, 2000)])
+        mpq = rng.choice([500000, 857142, 250001, 1000000, rng.randint(1000, 3000000)])
+        ticks = [rng.randint(0, 10**6) for _ in range(rng.randint(1, 5))]
+        yield {"k": "conv_arr", "ticks": ticks, "mpq": mpq, "ppq": ppq,
+               "dtype": rng.choice(["float64", "float64", "int64", "int32", "float32", "0d"]),
+               "dir": rng.choice(["t2s", "t2s", "s2t"])}
     # 11. frequency <-> pitch (oracle only)
     for a4 in (415.0, 440.0, 442.0):
         for p in range(0, 128):
@@ -327,6 +345,80 @@ def evaluate(d):
                 if off is None or e2 or r != basest + off:
                     ev.oracle.append("Interval(%r,%r).semitones = %r, defined size %r" % (n, qual, e2 or r, None if off is None else basest + off))
                 key = "iv"
+    elif k == "ivq":
+        qual, n, st = d["q"], d["n"], d["step"]
+        iv, e = call(S.Interval, n, qual, d["dir"])
+        if e is None:
+            if d["read_first"]:
+                call(lambda: iv.semitones)
+            r, e1 = call(iv.change_quality, st)
+            ev.requests.append("ivq %s %d %d" % (W.s(qual), n, st))
+            if e1:
+                ev.impl.append("err")
+            else:
+                sz, e2 = call(lambda: iv.semitones)
+                ev.impl.append("err" if e2 else W.f_tuple(str(iv.quality), W.f_int(sz)))
+                if r is not iv:
+                    ev.oracle.append("Interval(%d,%r).change_quality(%d) did not return the interval itself" % (n, qual, st))
+                if (iv.number, iv.direction) != (n, d["dir"]):
+                    ev.oracle.append("change_quality changed number/direction: %r %r" % (iv.number, iv.direction))
+                basest = {1: 0, 2: 2, 3: 4, 4: 5, 5: 7, 6: 9, 7: 11}[n]
+                ladder = {"dd": -2, "d": -1, "P": 0, "A": 1, "AA": 2} if n in (1, 4, 5) else {"dd": -3, "d": -2, "m": -1, "M": 0, "A": 1, "AA": 2}
+                old_off, new_off = ladder.get(qual), ladder.get(iv.quality)
+                if new_off is None or old_off is None or new_off != old_off + st:
+                    ev.oracle.append("Interval(%d,%r).change_quality(%d) gives quality %r: not %d semitone(s) from %r" % (
+                        n, qual, st, iv.quality, st, qual))
+                elif e2 or sz != basest + new_off:
+                    ev.oracle.append("Interval(%d,%r) after change_quality(%d)%s is %s%d and reports %r semitones, defined size %d" % (
+                        n, qual, st, " (size read before)" if d["read_first"] else "", iv.quality, n, e2 or sz, basest + new_off))
+                fresh, e3 = call(lambda: S.Interval(n, iv.quality, d["dir"]).semitones)
+                if not e2 and (e3 or fresh != sz):
+                    ev.oracle.append("Interval(%d,%r) after change_quality(%d) reports %r semitones, a fresh Interval(%d,%r) %r" % (
+                        n, qual, st, sz, n, iv.quality, e3 or fresh))
+            key = "ivq"
+    elif k == "conv_arr":
+        mpq, ppq = d["mpq"], d["ppq"]
+        if d["dir"] == "t2s":
+            f, vals = M.midi_ticks_to_seconds, [float(x) for x in d["ticks"]]
+        else:
+            f, vals = M.seconds_to_midi_ticks, [x * mpq / (1e6 * ppq) for x in d["ticks"]]
+        if d["dir"] == "s2t" and d["dtype"] in ("int64", "int32"):
+            vals = [float(int(v)) for v in vals]
+        if d["dtype"] == "float32":
+            vals = [float(np.float32(v)) for v in vals]
+        if d["dtype"] == "list":
+            arg = list(vals)
+        elif d["dtype"] == "0d":
+            vals = vals[:1]
+            arg = np.array(vals[0], dtype="float64")
+        else:
+            arg = np.array(vals, dtype=d["dtype"])
+        keep = copy.deepcopy(arg)
+        r1, e1 = call(f, arg, mpq, ppq)
+        same = (arg == keep) if isinstance(arg, list) else bool(np.array_equal(arg, keep) and arg.dtype == keep.dtype)
+        what = "%s(%s %s, mpq=%d, ppq=%d)" % (f.__name__, d["dtype"], vals, mpq, ppq)
+        if not same:
+            ev.oracle.append("frame: %s changed the caller's array to %r" % (what, arg if isinstance(arg, list) else arg.tolist()))
+        if e1 is None and isinstance(r1, np.ndarray) and isinstance(arg, np.ndarray) and np.shares_memory(r1, arg):
+            ev.oracle.append("alias: the result of %s shares memory with the argument" % what)
+        first = None if e1 else np.array(r1, dtype=float).reshape(-1).tolist()
+        r2, e2 = call(f, arg, mpq, ppq)
+        second = None if e2 else np.array(r2, dtype=float).reshape(-1).tolist()
+        if first != second:
+            ev.oracle.append("repeat: %s gives %r the first time and %r the second" % (what, e1 or first, e2 or second))
+        scal = []
+        for v in vals:
+            rs, es = call(f, v, mpq, ppq)
+            scal.append(None if es else float(rs))
+        if d["dtype"] == "float32":
+            pass  # a float32 array is converted in float32 arithmetic: equal only up to that precision, not demanded
+        elif e1 is None and None not in scal:
+            tol = 1e-12 if d["dir"] == "t2s" else 0
+            if len(first) != len(scal) or any(abs(a - b) > tol * max(1.0, abs(b)) for a, b in zip(first, scal)):
+                ev.oracle.append("alike: %s = %r, the same values one by one give %r" % (what, first, scal))
+        elif (e1 is None) != (None not in scal):
+            ev.oracle.append("alike: %s %s, scalars %s" % (what, "raises %r" % e1 if e1 else "works", scal))
+        key = "conv_arr"
     elif k == "tup":
         class _N:  # minimal stand-in for the start/end notes
             pass
